@@ -38,7 +38,7 @@ def gen_status_payload(rng, canonical):
 def gen_bundle(rng, seq, mode=None):
     ''' a received bundle that the receive table routes "forward" '''
     mode = mode or rng.choice(['plain'] * 6 + ['ts0', 'life0', 'future', 'dupprev', 'dupage', 'badprev', 'admin',
-                                               'adminnc', 'nullrpt', 'fragment', 'malformed'])
+                                               'adminnc', 'nullrpt', 'fragment', 'malformed', 'dupnum'])
     flags = rng.choice([0, 0, A.F_NOFRAG, ANYREQ | A.F_TIME, A.F_FWD, A.F_DEL | A.F_RCV])
     create = A.T0 - rng.choice([1, 40, 90000, 10 ** 9])
     life = rng.choice([1000, 60000, 3600000, 2 ** 33])
@@ -108,6 +108,25 @@ def gen_bundle(rng, seq, mode=None):
             pay['n'] = next(nums)
         elif len(blocks) > 1:
             blocks.pop()        # no payload block (a bundle without ANY block: see zero_block_leak)
+    if mode == 'dupnum':
+        # two blocks share a number (or one is numbered 0): BundleContainer refuses such a bundle
+        exts = [k for k in blocks if k is not pay]
+        while len(exts) < 3:
+            k = A.mk_blk(rng.choice([192, 193, 10, 7, 6]), next(nums), A.enc([5, 1]), ct=ct())
+            blocks.insert(0, k)
+            exts.append(k)
+        which = rng.choice(['two-ext', 'ext-is-1', 'pay-eq-ext', 'three', 'zero'])
+        if which == 'two-ext':
+            exts[1]['n'] = exts[0]['n']
+        elif which == 'ext-is-1':
+            rng.choice(exts)['n'] = 1
+        elif which == 'pay-eq-ext':
+            pay['n'] = rng.choice(exts)['n']
+        elif which == 'three':
+            exts[1]['n'] = exts[2]['n'] = exts[0]['n']
+        else:
+            rng.choice(exts)['n'] = 0
+        mode = 'dupnum:' + which
     return {'pri': p, 'rpt_none': rpt_none, 'blocks': blocks, 'mode': mode}
 
 
@@ -147,6 +166,21 @@ def monitors(chk, case, obs, only=None):
                 outs.append((A.dec_bundle(bytes.fromhex(h)), o))
         fwd_now = it['now'] + it.get('dwell', 0)
         tag = 'mode=%s' % b.get('mode')
+        ns_in = [k['n'] for k in b['blocks']]
+        if len(set(ns_in)) != len(ns_in) or 0 in ns_in:
+            # duplicate block numbers on input: whatever is transmitted must have unique block numbers with
+            # the payload numbered 1 and last (the code as it stands refuses the bundle at reception)
+            if not outs:
+                chk.count('dupnum:refused')
+            for (d, _o) in outs:
+                ns = [k['n'] for k in d.blocks]
+                if len(set(ns)) != len(ns) or not (d.blocks and d.blocks[-1]['t'] == 1 and d.blocks[-1]['n'] == 1):
+                    chk.violation('C11:duplicate-block-number-forwarded',
+                                  '%s: received block numbers %s; transmitted (type, number) %s'
+                                  % (tag, ns_in, [(k['t'], k['n']) for k in d.blocks]), rj)
+                else:
+                    chk.count('dupnum:forwarded-with-unique-numbers')
+            continue
         if not outs:
             clash = [k['n'] for k in b['blocks'] if k['n'] in assigned]
             if clash:
@@ -306,6 +340,14 @@ def w_dupage():    # wDupAge
     return _w('witness-dupage', [A.mk_blk(7, 2, A.enc(5)), A.mk_blk(7, 3, A.enc(6))])
 
 
+def w_dupnum():    # wDupNum: two extension blocks numbered 2
+    return _w('dupnum:witness', [A.mk_blk(192, 2, b''), A.mk_blk(193, 2, b'')])
+
+
+def w_dupnum_pay():   # an extension block numbered 1, like the payload
+    return _w('dupnum:witness-ext-is-1', [A.mk_blk(192, 1, b'x')])
+
+
 def w_adminnc():   # wAdmin: status report with the reason code 6 encoded as 18 06
     head = bytes.fromhex('8201848481f581f481f481f4')
     tail_ = bytes.fromhex('8201642f2f6f2f820102')
@@ -379,6 +421,8 @@ def run(chk):
                        '0..3 age, 0..2 unknown extension blocks in any order, block numbers drawn from '
                        '{2..13,24,255,256,300,65536}, CRC type 0/1/2 per block, creation time past/0/future, '
                        'lifetime 0, report flags, null report-to, admin-record payloads (canonical / non-shortest), '
+                       'duplicate block numbers (two or three equal, extension block numbered 1 or 0, payload sharing a '
+                       'number), '
                        'fragments, malformed layouts (payload not last / not numbered 1 / absent), transmit routes '
                        'with and without MTU; single bundles and histories of 2-3 forwarded bundles per agent; '
                        'all octets handed to the CL compared with the Lean model, then the monitors of the '
@@ -396,7 +440,8 @@ def run(chk):
     corpus = [{'items': r['replay']['items']} for r in A.corpus('C11') if 'odd-record' not in r['_file']]
     if corpus:
         run_cases(chk, corpus)
-    cases = [mk_case([w()], now0=W_NOW - 3) for w in (w_d10, w_d11, w_life0, w_dupprev, w_dupage, w_adminnc)]
+    cases = [mk_case([w()], now0=W_NOW - 3) for w in (w_d10, w_d11, w_life0, w_dupprev, w_dupage, w_adminnc, w_dupnum,
+                                                               w_dupnum_pay)]
     n = 700 if chk.tier == 'quick' else 30000
     seq = 0
     for i in range(n):
